@@ -17,9 +17,11 @@ RULE = ("cases = groups of independent ops, each op one complete connection: `re
         "loopback TCP, 1-4 connections at once; `tg` = request targets (all token strings over . / %2e %2f %25 a up to a "
         "byte length, random longer ones with %00 %zz ? # ..); `url`/`dec` = Url(s) / Url::decode(s) over URL "
         "metacharacters; `file` = static file server with traversal attempts and Range/If-Modified-Since headers; "
-        "non-trivial = distinct case with a non-empty stream")
+        "valid requests (no body, Content-Length, chunked, keep-alive pairs, HTTP/1.0, OPTIONS first) cut at EVERY byte "
+        "position through srv/req/tcp for the dispatch clause; non-trivial = distinct case with a non-empty stream")
 
-TRUSTED = ["harness/c09.cpp watchdog (12 s kill) and SLOW flag (>5 s wall or >1.5 s CPU per connection) for the 'terminates promptly' clause",
+TRUSTED = ["tools/props/c09.py _frame(): lenient RFC 7230 framing parser used by the dispatch clause (no opinion where framing is a matter of interpretation: NUL in the head, folded or duplicate Content-Length/Transfer-Encoding, non-decimal lengths, chunk extensions/trailers)",
+           "harness/c09.cpp watchdog (12 s kill) and SLOW flag (>5 s wall or >1.5 s CPU per connection) for the 'terminates promptly' clause",
            "the python reference parser in tools/props/c09.py (judges well-formed requests on the implementation alone)"]
 
 ASSUMPTIONS = [
@@ -47,7 +49,13 @@ LEVEL_TEXT = ("Proved in Lean 4 about the model that the driver runs, for ALL by
               "read_faithful_chunked_any_spelling, serve_faithful) read(serialize q ++ rest) = (q, rest) for every well-formed "
               "request q with no body, a Content-Length body of any size, or a chunked body of any number of chunks (< 2^31 bytes "
               "each), with any pipelined bytes left unread; and the keep-alive loop hands every pipelined well-formed request to the "
-              "application in order, exactly once. The model is tied to the code by the correspondence check on all observable fields, socket state, bytes "
+              "application in order, exactly once; (dispatch_implies_complete, read_dispatch_complete, "
+              "cut_in_request_line_not_dispatched) conversely, for EVERY stream, every request the server loop hands to the "
+              "application is a complete framed request occupying a segment of the stream — request line with its LF, header block "
+              "up to the empty line, exactly Content-Length body bytes or a complete chunk sequence with its terminating chunk — with "
+              "exactly the method, target, protocol, headers and body of that segment; a stream the peer ends earlier is dropped. "
+              "The same clause is judged on the real server by an independent RFC 7230 framing parser (python) over every "
+              "req/srv/tcp stream of every run, with valid requests cut at every byte position. The model is tied to the code by the correspondence check on all observable fields, socket state, bytes "
               "written back and bytes left unread (socketpair and loopback TCP, sequential and concurrent server).")
 
 LEVEL_NOTE = ("Trusted: Lean kernel, harness + watchdog, libc/OS as listed in assumptions. Partial: the hypotheses of the faithful-read theorems "
